@@ -54,7 +54,7 @@ CNext ==
 \* ghost history and act do not influence enabledness
 CView == <<reqs, queue, sent, sendpc, wbuf, c2s, pend, sbuf, app, s2c, rbuf, srvClosed, recvpc, mtx, done, resp,
            cbset, cbinv, cbret, err, stopped, stoppc, stopby, quit, connClosed, timerSet, ntimer, nfault,
-           ncalls, th, gated, ustopped, panicked, Len(h.cblog), l, run>>
+           ncalls, th, gated, cbq, ustopped, panicked, Len(h.cblog), l, run>>
 
 Post == JsonSerialize("conform.json", [marks |-> SetToSeq({[run |-> r, hw |-> TLCGet(r)] : r \in Starts})])
 =============================================================================
